@@ -220,13 +220,34 @@ def check_C10(chk):
             if e.get('e') == 'Hash' and 'mspec' in e:
                 m = re.match(r'@(\d+),(\d+),(\w)', e['mspec'])
                 e['m'] = list(gen_data_py(int(m.group(1)), int(m.group(2)), m.group(3)))
+    # the same digests obtained through the incremental interface (irregular chunking, reinit after a finalized and
+    # after an abandoned message): the digest of every message, however it is supplied, is the MDPH value
+    sgroups = []
+    for n in [1, 5, 16, 17, 31, 33, 40, 47, 48, 64, 65, 100] + ([200, 257] if chk.thorough else []):
+        m = r.bytes(n, 'rh'[n % 2])
+        g, pos, k = [f"hinit id=st{n}-i obj={n % 8}"], 0, 0
+        while pos < n:
+            sz = min(n - pos, r.choice([1, 3, 7, 13, 16, 17, 23, 29]))
+            g.append(f"hupdate id=st{n}-u{k} obj={n % 8} d={hx(m[pos:pos + sz])} op=0")
+            pos += sz; k += 1
+        g.append(f"hfinal id=st{n}-f obj={n % 8} op=0")
+        m2 = r.bytes(5 + n % 20)
+        g += [f"hreinit id=st{n}-r obj={n % 8}", f"hupdate id=st{n}-v obj={n % 8} d={hx(m2)} op=0", f"hfinal id=st{n}-g obj={n % 8} op=0",
+              f"hinit id=st{n}-j obj={n % 8}", f"hupdate id=st{n}-w obj={n % 8} d={hx(m[:n // 2 + 1])} op=0",
+              f"hreinit id=st{n}-s obj={n % 8}", f"hupdate id=st{n}-x obj={n % 8} d={hx(m2)} op=0", f"hfinal id=st{n}-h obj={n % 8} op=0"]
+        sgroups.append(g)
+    sx = run_exec_groups(exe, sgroups)
+    annotate(sx, sgroups)
+    execs += sx
+    plans += sgroups
     judge_h(chk, exe, execs, plans)
     chk.sample(execs[0][1]); chk.sample(execs[3][2])
     chk.finish(
         rule="one-shot Hash events for every length 0..80, block/page edges up to 1025 (thorough: 4097, 10000, 65536) x byte "
              "classes (random, >= 0x80, 0xFF, counting) x alignment offsets x NULL/0, on every build configuration (identical "
              "executions judged once), each validated by TLC against the MDPH construction of TJHash (bit-level Compress), "
-             "which is anchored on the reference program's vectors",
+             "which is anchored on the reference program's vectors; a set of messages is additionally hashed through "
+             "init/update*/finalize with irregular chunking and reinit after finalized and abandoned messages",
         assumptions=["the stored TinyJAMBU-HASH/HMAC vectors (spec/anchors) were produced by the independent reference program tools/hashref",
                      "TLC evaluates concrete inputs: the input space is sampled, not exhausted"])
 
